@@ -184,23 +184,14 @@ Proof.
   { unfold synAt. cbn [pos_good]. apply errat_of. exact Is. }
   zb. destruct C as [C|C]; [contradiction|].
   assert (H0b : In 0 b) by (apply (in0_tail _ _ I0); assumption).
-  (* continue after skipSpace from a cursor q0 inside rest p *)
+  (* continue from a cursor q0 strictly inside rest p *)
   assert (Hcont : forall q0, Inv text q0 -> suffix (rest q0) (rest p) ->
-            ((length (rest q0) < length (rest p))%nat \/ (match rest q0 with c :: _ => is_space c = true | [] => False end)) ->
-            pos_good text (rest p) (do q <- skipSpace q0; piBody f start q)).
-  { intros q0 I0' S0 Hprog.
-    destruct (skipSpace_ok text q0 I0') as (q & Eq & Iq & Sq). rewrite Eq. cbn [bind].
-    assert (Lq : (length (rest q) < length (rest p))%nat).
-    { destruct Hprog as [Hl|Hs].
-      - apply suffix_len in Sq. lia.
-      - destruct (Nat.eq_dec (length (rest q)) (length (rest q0))) as [Le|Lne].
-        + exfalso. pose proof (suffix_len_eq _ _ Sq Le) as Req.
-          unfold skipSpace in Eq. pose proof (skipSp_stop _ _ _ _ _ _ (le_n _) Eq) as St.
-          rewrite Req in St. destruct (rest q0); [exact Hs|congruence].
-        + apply suffix_len in Sq. apply suffix_len in S0. lia. }
-    pose proof (IH start q Is Iq) as G. assert (Hb : (length (rest q) <= f)%nat) by lia. specialize (G Hb).
-    destruct (piBody f start q) as [q'| | |]; cbn [pos_good] in G |- *; try exact G.
-    destruct G as (A & B & L). split; [exact A|]. split; [exact (suffix_trans _ _ _ B (suffix_trans _ _ _ Sq S0))|lia]. }
+            (length (rest q0) < length (rest p))%nat ->
+            pos_good text (rest p) (piBody f start q0)).
+  { intros q0 I0' S0 Lq.
+    pose proof (IH start q0 Is I0') as G. assert (Hb : (length (rest q0) <= f)%nat) by lia. specialize (G Hb).
+    destruct (piBody f start q0) as [q'| | |]; cbn [pos_good] in G |- *; try exact G.
+    destruct G as (A & B & L). split; [exact A|]. split; [exact (suffix_trans _ _ _ B S0)|lia]. }
   destruct (e =? 63) eqn:E63.
   - zb. subst e. destruct b as [|e1 r4]; [exfalso; exact H0b|].
     destruct (e1 =? 62) eqn:E62.
@@ -218,11 +209,29 @@ Proof.
         -- rewrite R. rewrite <- app_assoc. reflexivity.
         -- apply Forall_app. split; [exact Fp|]. repeat constructor; discriminate.
       * cbn [adv rest]. rewrite R. exists (a ++ [63]). rewrite <- app_assoc. reflexivity.
-      * left. cbn [adv rest]. rewrite R. rewrite app_length. cbn [length]. lia.
-  - zb. apply Hcont.
-    + apply (adv_inv_many text p a (e :: b)); [exact HI|exact R|exact Fp].
-    + cbn [adv rest]. rewrite R. apply suffix_app.
-    + right. cbn [adv rest]. destruct (pi_stop_cases _ C) as [X|[X|X]]; subst e; try reflexivity. contradiction.
+      * cbn [adv rest]. rewrite R. rewrite app_length. cbn [length]. lia.
+  - (* a line break: counted by the loop itself *)
+    zb. cbv zeta.
+    pose proof (adv_inv_many text p a (e :: b) HI R Fp) as I1. unfold Inv, adv in I1. cbn [rest off line ls] in I1.
+    assert (Sb : forall m r', e :: b = m ++ r' -> suffix r' (rest p)).
+    { intros m r' Em. rewrite R, Em, app_assoc. apply suffix_app. }
+    assert (Lb : forall r' : list Z, (length r' < length (e :: b))%nat -> (length r' < length (rest p))%nat).
+    { intros r' Hl. rewrite R, app_length. lia. }
+    destruct (pi_stop_cases _ C) as [X|[X|X]]; [| |contradiction]; subst e; cbn [Z.eqb Pos.eqb].
+    + destruct b as [|e1 r4]; [exfalso; exact H0b|].
+      destruct (e1 =? 10) eqn:E10.
+      * zb. subst e1. apply Hcont.
+        -- apply inv_mk. exact (inv_adv_crlf _ _ _ _ _ I1).
+        -- cbn [rest]. apply (Sb [13; 10]). reflexivity.
+        -- cbn [rest]. apply Lb. cbn [length]. lia.
+      * zb. apply Hcont.
+        -- apply inv_mk. exact (inv_adv_cr _ _ _ _ _ _ I1 E10).
+        -- cbn [rest]. apply (Sb [13]). reflexivity.
+        -- cbn [rest]. apply Lb. cbn [length]. lia.
+    + apply Hcont.
+      * apply inv_mk. exact (inv_adv_lf _ _ _ _ _ I1).
+      * cbn [rest]. apply (Sb [10]). reflexivity.
+      * cbn [rest]. apply Lb. cbn [length]. lia.
 Qed.
 
 Definition pos_ok (text r0 : list Z) (x : res pos) : Prop :=
